@@ -224,8 +224,10 @@ def stage_case(c, proto, fresh=False):
     ctl = {"src": c["ctl"], "class": "ok", "emit": c["ctlemits"]}
     steps = [{"src": setup, "class": "ok"}, ctl,
              {"src": c["src"], "class": c["out"], "emit": c["emits"]},
-             {"src": proto["after"], "class": "ok", "emit": c["after"]},
-             ctl]
+             {"src": proto["after"], "class": "ok", "emit": c["after"]}]
+    # names defined AFTER the failing form in the failed unit: a later reference / call is an error, not a crash
+    steps += [{"src": lp["src"], "class": lp["out"], "emit": lp["emits"]} for lp in c.get("late", [])]
+    steps.append(ctl)
     return {"id": f"s-{c['ctx']}-{c['stage']}", "fresh": fresh, "tag": f"stage|{c['ctx']}|{c['stage']}",
             "steps": steps, "st": c["st"]}
 
